@@ -793,6 +793,79 @@ def ob_history(seq):
 KNOWN_SIG_PREFIX = "history:"
 
 
+def _elastic_model(law, params):
+    from EasyFEA import Models
+    E = Models.Elastic
+    if law == "Isotropic":
+        return E.Isotropic(params["dim"], E=params["E"], v=params["v"], planeStress=params["planeStress"])
+    if law == "TransverselyIsotropic":
+        return E.TransverselyIsotropic(params["dim"], El=params["El"], Et=params["Et"], Gl=params["Gl"], vl=params["vl"], vt=params["vt"], axis_l=(2, 1, 0), axis_t=(-1, 2, 0), planeStress=params["planeStress"])
+    if law == "Orthotropic":
+        return E.Orthotropic(params["dim"], E1=params["E1"], E2=params["E2"], E3=3.0, G23=1.1, G13=1.4, G12=params["G12"], v23=0.2, v13=0.24, v12=params["v12"], axis_1=(2, 1, 0), axis_2=(-1, 2, 0),
+                             planeStress=params["planeStress"])
+    if law == "Anisotropic":
+        return E.Anisotropic(params["dim"], params["C"], useVoigtNotation=False, axis1=(2, 1, 0), axis2=(-1, 2, 0))
+    raise Unsupported(law)
+
+
+def ob_model_history(law, dim):
+    """model-level histories: after any sequence of parameter changes / stiffness replacements interleaved with reads, the law and its derived
+    cached quantities (C, S, the matrix square roots handed to the energy splits) are those of a model constructed in the final configuration."""
+    rng = np.random.default_rng(5)
+    n_ = 3 if dim == 2 else 6
+
+    def spd(k):
+        A = np.random.default_rng(100 + k).normal(size=(n_, n_))
+        return A @ A.T + n_ * np.eye(n_)
+    base = {"Isotropic": dict(E=3.0, v=0.25), "TransverselyIsotropic": dict(El=11.0, Et=3.0, Gl=1.7, vl=0.26, vt=0.31), "Orthotropic": dict(E1=11.0, E2=5.0, G12=1.9, v12=0.3),
+            "Anisotropic": dict(C=spd(0))}[law]
+    base = dict(base, dim=dim, planeStress=True)
+    # the alphabet: ('set', name, value) parameter assignment; ('Set_C', k, update_S); ('C=', k) the public setter; ('read',)
+    if law == "Anisotropic":
+        ops = [("read",), ("Set_C", 1, True), ("Set_C", 2, False), ("C=", 3), ("Set_C", 4, True)]
+    else:
+        names = [k for k in base if k not in ("dim", "planeStress")]
+        ops = [("read",)] + [("set", nm, base[nm] * f) for nm, f in zip(names, (1.3, 0.8, 1.1, 0.9, 1.05))] + ([("set", "planeStress", False)] if dim == 2 else [])
+    n = 0
+    seqs = [s_ for L in (1, 2, 3) for s_ in itertools.product(range(len(ops)), repeat=L)]
+    for seq in seqs:
+        params = dict(base)
+        m = _elastic_model(law, params)
+        s_stale = False
+        for k in seq:
+            op = ops[k]
+            if op[0] == "read":
+                m.Get_sqrt_C_S(); m.C; m.S
+            elif op[0] == "set":
+                setattr(m, op[1], op[2])
+                params[op[1]] = op[2]
+            elif op[0] == "Set_C":
+                m.Set_C(spd(op[1]), useVoigtNotation=False, update_S=op[2])
+                params["C"] = spd(op[1])
+                s_stale = not op[2]
+            elif op[0] == "C=":
+                fresh_ = _elastic_model(law, dict(params, C=spd(op[1])))
+                m.C = fresh_.C                       # the setter takes the matrix in the global basis, as Set_C hands it over
+                params["C"] = spd(op[1])
+                s_stale = True
+        fresh = _elastic_model(law, params)
+        C, Cf = np.asarray(m.C), np.asarray(fresh.C)
+        rC, rS = (np.asarray(a) for a in m.Get_sqrt_C_S())
+        rCf, rSf = (np.asarray(a) for a in fresh.Get_sqrt_C_S())
+        sc = np.abs(Cf).max()
+        errs = dict(C=float(np.abs(C - Cf).max() / sc), sqrtC=float(np.abs(rC - rCf).max() / np.abs(rCf).max()), sqrtS=float(np.abs(rS - rSf).max() / np.abs(rSf).max()),
+                    sqrtC2=float(np.abs(rC @ rC - Cf).max() / sc), sqrtCS=float(np.abs(rC @ rS - np.eye(n_)).max()))
+        if not s_stale:
+            errs["S"] = float(np.abs(np.asarray(m.S) - np.asarray(fresh.S)).max() / np.abs(np.asarray(fresh.S)).max())
+        n += len(errs)
+        bad = {k: v for k, v in errs.items() if not v < 1e-10}
+        if bad:
+            hist = [ops[k] if ops[k][0] != "set" else ops[k][:2] for k in seq]
+            raise Refuted(f"{law} (dim {dim}): after the history {hist} the model differs from one constructed in the final configuration: {bad}",
+                          cex=dict(law=law, dim=dim, history=[list(map(str, h)) for h in hist]), signature=f"model:{law}:{dim}:{sorted(bad)[0]}", replay=dict(confirmed=True, **errs))
+    return Verdict(DISCHARGED, backend="native run of the real law classes, every sequence of length <= 3 over the alphabet", sub=n, detail=f"{len(seqs)} histories")
+
+
 def build(tier, seed):
     obs = []
     obs.append(Ob("C14.I_flag.mesh", ob_mesh_notify, (), "E", (f"{MESH}::Mesh.*",), clause="every Mesh method that re-assigns group coordinates notifies the observers"))
@@ -814,6 +887,11 @@ def build(tier, seed):
     for seq in (("start", "add_dirichlet"), ("start", "bc_init_readd_without_connection"), ("start", "bc_init_readd"), ("start", "add_dirichlet", "bc_init_readd_without_connection")):
         obs.append(Ob("C14.history.beam.lagrange." + ".".join(seq[1:]), ob_beam_lagrange, (seq,), "X", (f"{SIMU}::_Simu._Bc_Add_Dirichlet", f"{SIMU}::_Simu.Bc_Init", f"{SIMU}::_Simu._Bc_Lagrange_dim"),
                       bound="one 2-beam frame", clause="changing the set of conditions around multiplier constraints: next solve == fresh simulation's"))
+    for law in ("Isotropic", "TransverselyIsotropic", "Orthotropic", "Anisotropic"):
+        for dim in (2, 3):
+            obs.append(Ob(f"C14.history.model.{law}.{dim}d", ob_model_history, (law, dim), "X", ("EasyFEA/Models/Elastic/_laws.py::_Elastic.Get_sqrt_C_S", "EasyFEA/Models/Elastic/_laws.py::_Elastic.C[setter]", f"EasyFEA/Models/Elastic/_laws.py::{law}"),
+                          bound="every sequence of length <= 3 over reads, 3-5 parameter assignments, Set_C (with / without compliance update) and the public C setter",
+                          clause="C, S and the cached matrix square roots (C^1/2, C^-1/2) equal those of a model constructed in the final configuration", timeout=600))
     obs.append(Ob("C14.history.mesh.inDim", ob_mesh_indim, (), "X", (f"{MESH}::Mesh.inDim",), bound="one patch", clause="inDim after an out-of-plane rotation == a fresh mesh's"))
     obs.append(Ob("C14.I_cache.key", ob_cache_key, (), "B", ("EasyFEA/Utilities/_cache.py::cache_computed_values", "EasyFEA/Utilities/_cache.py::clear_cached_computed_values"),
                   bound="7 call spellings x all ordered pairs x 2 receivers x 2 signatures", clause="the memoised wrapper returns what the function returns, for every call sequence; clear drops the memo"))
